@@ -154,4 +154,21 @@ Proof.
   destruct (PoolConc.pvNewBlock C w p) as (w' & (b & i)). destruct H as (? & ? & ? & ? & ? & _ & Rq & _).
   rewrite PoolBlk.newblock_refused_writes_nothing, Rq. reflexivity.
 Qed.
+
+(* the hypotheses of the refinement theorem are satisfiable: the initial world (no buffer, fresh id 1) with the cells of buffer 1
+   pre-initialised *)
+Lemma rel_nonvacuous : exists w p hd bf bcnt nx nfi, Rel w p hd bf bcnt nx nfi /\ PreInit w bf bcnt nx nfi.
+Proof.
+  exists PoolConc.empty_world, false, 0, (fun _ => 0), (fun b => if b =? 1 then C else 0), (fun _ => 0),
+         (fun a => if a =? Gen_MemPool.pvGetBlock B A 1 0 then (if 0 =? C - 1 then PoolConc.NIL else 1) else 0).
+  split.
+  - unfold Rel. cbn [PoolConc.getp PoolConc.empty_world PoolConc.cp0 PoolConc.lfree PoolConc.empty_pool PoolConc.fresh PoolConc.hd0
+                     PoolConc.fb PoolConc.fc PoolConc.nx linked].
+    split; [reflexivity|]. split; [exact I|]. split; [intros a []|]. split; [discriminate|].
+    intros b Nb. split; [reflexivity|]. split; [destruct (Z.eqb_spec b 1); [contradiction|reflexivity]|].
+    destruct (Z.eqb_spec (Gen_MemPool.pvGetBlock B A b 0) (Gen_MemPool.pvGetBlock B A 1 0)) as [E|_]; [|reflexivity].
+    exfalso. unfold Gen_MemPool.pvGetBlock in E. lia.
+  - unfold PreInit. cbn [PoolConc.empty_world PoolConc.fresh]. rewrite !Z.eqb_refl. auto.
+Qed.
 End Refine.
+
